@@ -19,7 +19,7 @@ ASSUMPTIONS = ["stdlib configparser.RawConfigParser is a correct, independent IN
                "family names that trigger the documented RHEL/Fedora/CentOS heuristics and versions containing '-'/'_' are kept out of the metamorphic part only"]
 FLOORS = {"general": 400, "general:src-tree": 60, "general:explicit-main": 100, "general:float-timestamp": 60, "legacy-view": 150}
 
-_ts = st.one_of(st.integers(1, 2 ** 31), st.integers(-5, -1), st.sampled_from([2 ** 53 + 1, 1758844800123456789, 2 ** 63 - 1]), st.integers(2 ** 53, 2 ** 70), st.floats(min_value=-1e6, max_value=1e12, allow_nan=False).filter(lambda f: f != 0.0),
+_ts = st.one_of(st.integers(1, 2 ** 31), st.integers(-5, -1), st.sampled_from([2 ** 53 + 1, 1758844800123456789, 2 ** 63 - 1, -(2 ** 53) - 1]), st.integers(2 ** 53, 2 ** 70), st.integers(-(2 ** 70), -(2 ** 53)), st.floats(min_value=-1e6, max_value=1e12, allow_nan=False).filter(lambda f: f != 0.0),
                 st.sampled_from([1386857206.61, 1410862874.59, 0.5, -0.5, 1e22, 2.0 ** 53 + 2]))
 general_strategy = st.fixed_dictionaries({"desc": tim.tree_desc(max_depth=2, timestamps=_ts), "use_main": st.booleans(), "plan": st.sampled_from([0, 1, 2])})
 
